@@ -17,7 +17,8 @@ RULE = ("NOALLOC: the harness installs a counting #[global_allocator]; every cal
         "only if the counted calls ran, returned the right values and allocated nothing.  Operations: generator histories "
         "(new/update/finalize_with_options under all option sets/processed_len/clone, also from injected states), from_str_bytes "
         "and FromStr on valid and malformed text, TryFrom<&[u8]> / <&[u8; N]>, store_into_bytes / store_into_str_bytes, "
-        "accessors, clear_checksum, compare_with_config in both modes, the string comparison helpers, hash_buf, length encoding; "
+        "accessors, clear_checksum, compare_with_config in both modes, the string comparison helpers, hash_buf, length encoding, and "
+        "every compiled SIMD backend of the body distance and the bucket aggregation directly through the cfg-guarded hooks; "
         "all five variants; quick: default (runtime SIMD dispatch + hex-simd), no-SIMD, embedded-table and low-memory builds, thorough: the "
         "13-configuration matrix of C07.  The very first library call of each harness process (CPU-feature detection, OnceLock "
         "initialisation) is counted like any other.  BUILD: real `cargo build --no-default-features --lib` of /repo (guard off) "
@@ -29,7 +30,7 @@ RULE = ("NOALLOC: the harness installs a counting #[global_allocator]; every cal
 
 ALLOWED_OPS = {"parse", "fromstr", "frombytes", "fromarray", "fmt", "storebytes", "parts", "quartile", "valid", "clearcks",
                "cmp", "laws", "hash", "hashbuf", "hist", "cmpstr", "cmpstr_default", "len_new", "len_tryfrom", "validity",
-               "len_code"}
+               "len_code", "dbody", "agg"}
 
 
 def na_cases(rng, tier):
@@ -42,6 +43,15 @@ def na_cases(rng, tier):
         if " uzero " in c or " ugen " in c:
             continue          # the harness builds those inputs itself (outside the counted region, but keep the suite simple)
         out.append("na " + c)
+    # every compiled SIMD backend directly, through the cfg-guarded hooks (body distance and bucket aggregation)
+    from props import c07
+    brng = rng.fork("backends")
+    for c in c07.agg_cases(brng, "quick", ["naive", "sse2", "ssse3", "avx2", "dispatch"])[::6]:
+        out.append("na " + c)
+    for size in (12, 32, 64):
+        for be in ("pseudo32", "pseudo64", "sse2", "sse41", "avx2", "dispatch"):
+            for _ in range(3):
+                out.append("na dbody %d %s %s %s" % (size, be, hx(brng.bytes(size)), hx(brng.bytes(size))))
     # longer inputs, every variant, every option set in one history; clone + continue
     sizes = [300, 5000, 70000] if tier == "quick" else [300, 5000, 70000, 300000]
     for v in VNAMES:
